@@ -8,8 +8,10 @@ import (
 	"encoding/json"
 	"fmt"
 	"hash/fnv"
+	"math"
 	"math/rand"
 	"os"
+	"reflect"
 	"runtime/debug"
 	"sort"
 	"strings"
@@ -113,12 +115,65 @@ func NewCtx(prop, tier string, seed int64, flavour, logPath string) (*Ctx, error
 	return c, nil
 }
 
+// Sanitize makes a value JSON-encodable: non-finite floats and complex numbers become strings.
+func Sanitize(v interface{}) interface{} {
+	switch x := v.(type) {
+	case nil:
+		return nil
+	case float64:
+		if math.IsNaN(x) || math.IsInf(x, 0) {
+			return fmt.Sprint(x)
+		}
+		return x
+	case float32:
+		if x != x || math.IsInf(float64(x), 0) {
+			return fmt.Sprint(x)
+		}
+		return x
+	case complex64, complex128:
+		return fmt.Sprint(x)
+	case map[string]interface{}:
+		out := make(map[string]interface{}, len(x))
+		for k, e := range x {
+			out[k] = Sanitize(e)
+		}
+		return out
+	case []interface{}:
+		out := make([]interface{}, len(x))
+		for i, e := range x {
+			out[i] = Sanitize(e)
+		}
+		return out
+	case error:
+		return x.Error()
+	}
+	rv := reflect.ValueOf(v)
+	switch rv.Kind() {
+	case reflect.Slice, reflect.Array:
+		out := make([]interface{}, rv.Len())
+		for i := range out {
+			out[i] = Sanitize(rv.Index(i).Interface())
+		}
+		return out
+	case reflect.Map:
+		out := map[string]interface{}{}
+		for _, k := range rv.MapKeys() {
+			out[fmt.Sprint(k.Interface())] = Sanitize(rv.MapIndex(k).Interface())
+		}
+		return out
+	case reflect.Func, reflect.Chan, reflect.UnsafePointer:
+		return fmt.Sprintf("<%s>", rv.Kind())
+	}
+	return v
+}
+
 func (c *Ctx) emit(v interface{}) {
 	if c.w == nil {
 		return
 	}
 	b, err := json.Marshal(v)
 	if err != nil {
+		fmt.Fprintf(os.Stderr, "event log: cannot encode a %T record: %v\n", v, err)
 		b, _ = json.Marshal(map[string]string{"t": "marshal-error", "err": err.Error()})
 	}
 	c.w.Write(b)
@@ -210,7 +265,7 @@ func (c *Ctx) Sample(kind string, v interface{}) {
 	c.mu.Lock()
 	if c.sampleBy[kind] == 0 && len(c.samples) < maxSamples {
 		c.sampleBy[kind]++
-		c.samples = append(c.samples, map[string]interface{}{"kind": kind, "group": c.group, "case": v})
+		c.samples = append(c.samples, map[string]interface{}{"kind": kind, "group": c.group, "case": Sanitize(v)})
 	}
 	c.mu.Unlock()
 }
@@ -255,7 +310,7 @@ func (c *Ctx) Violation(sig, caseKey string, desc, want, got interface{}) {
 	c.violBy[sig]++
 	if c.violBy[sig] <= maxWitnessPerSig {
 		c.emit(map[string]interface{}{"t": "viol", "v": Violation{Prop: c.Prop, Sig: sig, Group: c.group, Case: caseKey,
-			Desc: desc, Want: want, Got: got, Flavour: c.Flavour, Seed: c.Seed, Tier: c.Tier}})
+			Desc: Sanitize(desc), Want: Sanitize(want), Got: Sanitize(got), Flavour: c.Flavour, Seed: c.Seed, Tier: c.Tier}})
 		if c.w != nil {
 			c.w.Flush()
 		}
